@@ -96,7 +96,7 @@ Print Assumptions C09_tr_tree_weight.
    static_ops is EXACTLY the number of opcodes above OP_16 of the encoded script (what consensus
    counts whether executed or not), in the contexts that have an opcode limit; has_free_verify says
    exactly when the encoder fuses VERIFY into the last opcode. (script_size = encoded length is
-   proved by the C04 development; pk_cost is not: findings repair:unc and C04's multi_a num cost.) *)
+   proved by the C04 development; pk_cost is treated below.) *)
 Theorem C09_static_ops_exact :
   forall fx c ke m, no_multi_a m = true -> count_ops (enc ke m) = static_ops (ext_of_gen fx c m).
 Proof. exact static_ops_exact. Qed.
@@ -107,15 +107,11 @@ Proof. exact fv_enc. Qed.
 Print Assumptions C09_has_free_verify_exact.
 
 (* pk_cost (the figure the context limit checks read) against script_size (exact, C04):
-   equal on the class size_wf; FALSE for uncompressed keys as written (finding repair:unc) *)
+   equal on the class size_wf (which contains uncompressed keys since /repo 4c5160f8) *)
 Theorem C09_pk_cost_is_size_partial :
   forall fx c m, size_wf fx c m = true -> pk_cost (ext_of_gen fx c m) = script_size_gen fx c m.
 Proof. exact ext_pk_cost_is_size. Qed.
 Print Assumptions C09_pk_cost_is_size_partial.
-Theorem C09_pk_cost_refuted_unc :
-  pk_cost (ext_of cx_legacy (MCheck (MPkK 6))) < script_size cx_legacy (MCheck (MPkK 6)).
-Proof. exact ext_pk_cost_refuted_unc. Qed.
-Print Assumptions C09_pk_cost_refuted_unc.
 
 (* ---- executed resources (DESIGN 5/C09 exec_bounds) ----
    PARTIAL. Proved: the instrumented semantics used by the per-run oracle computes the same final
